@@ -62,7 +62,9 @@ func safeErr(f func() error) (err error) {
 	return
 }
 
-func isPanic(err error) bool { return err != nil && len(err.Error()) >= 6 && err.Error()[:6] == "panic:" }
+func isPanic(err error) bool {
+	return err != nil && len(err.Error()) >= 6 && err.Error()[:6] == "panic:"
+}
 
 // textRoundTrip: UnmarshalText(MarshalText(v)) == v, re-print identical, and the text equals the
 // independent statement where there is one.
@@ -76,7 +78,9 @@ func textRoundTrip(name string, v reflect.Value) (string, error) {
 		return string(txt), stats.Failf(key+"/form", "%s: MarshalText gives %q, the documented form is %q", name, txt, want)
 	}
 	p := reflect.New(v.Type())
-	if err := safeErr(func() error { return p.Interface().(encoding.TextUnmarshaler).UnmarshalText(append([]byte(nil), txt...)) }); err != nil {
+	if err := safeErr(func() error {
+		return p.Interface().(encoding.TextUnmarshaler).UnmarshalText(append([]byte(nil), txt...))
+	}); err != nil {
 		return string(txt), stats.Failf(key, "%s: UnmarshalText of its own output %q failed: %v", name, txt, err)
 	}
 	if d := gen.Diff(v, p.Elem()); d != "" {
